@@ -16,6 +16,8 @@ BOUNDS = {"encoding": "every entropy of 128/160/192/224/256 bits (all bit patter
                       "lower- and upper-case hex", "rejection": "every byte string of every other length 0..64; odd nibble counts; "
           "hex text with 1 blank at every byte boundary (all lengths 0..40) and 2 blanks (quick: lengths 15-17, 19-21; thorough: 0..40)",
           "word list": "ground fact (evaluated): 2048 distinct entries, SHA-256 of the newline-joined list = official english.txt digest"}
+BOUNDS_ADDED = 'two requests in one process (second entropy = first with more leading zero bytes, or unrelated), via the wallet constructor and directly'
+BOUNDS["histories, lifetimes, injected faults, boundary vectors"] = BOUNDS_ADDED
 STUBS = ["SHA-256 -> uninterpreted function", "bip39.word_list -> index-recording proxy over the real list",
          "BaseWallet.from_mnemonic -> recording stub (C03 covers it)"]
 ASSUMPTIONS = ["engine models of bytes.fromhex / bin / zfill / re.findall('.'*11) / int(s, 2) (validated against native runs)"]
